@@ -96,10 +96,12 @@ def namesNonVoid : List Str := [
 
 def lastIn (f : Str) (cs : List Char) : Bool := match f.getLast? with | some c => cs.contains c | none => false
 
-/-- the two `for f_name in …: expression = expression.replace(f_name + "(", f_name + "@(")` loops -/
+/-- the two `for f_name in …: expression = expression.replace(f_name + "(", f_name + "@(")` loops; the first
+    skips the keys ending in an operator character, comparison operators `> < %` (and `& $`) included, so that a
+    parenthesis directly after a comparison stays a parenthesis (fix 6716f85); the second skips `+ - * / ^` only -/
 def funcAt (e : Str) : Str :=
   let e := namesVoid.foldl (fun e f =>
-    if lastIn f ['+', '-', '*', '/', '^', '!'] then e else replace e (f ++ ['(']) (f ++ ['@', '('])) e
+    if lastIn f ['+', '-', '*', '/', '^', '!', '>', '<', '%', '&', '$'] then e else replace e (f ++ ['(']) (f ++ ['@', '('])) e
   namesNonVoid.foldl (fun e f =>
     if lastIn f ['+', '-', '*', '/', '^'] then e else replace e (f ++ ['(']) (f ++ ['@', '('])) e
 
@@ -241,16 +243,24 @@ def digitsVal : Str → Nat → Option Nat
     | some d => digitsVal cs (acc * 10 + d)
     | none => none
 
-/-- decimal literals `12`, `12.`, `12.5`, `.5` → (mantissa, number of decimals).
-    (Python's `float()` also accepts exponents, `inf`, `nan`, underscores, signs: outside the grammar.) -/
+/-- Python's `float` accepts single underscores between two digits (`3_2` is 32): no leading, trailing or doubled `_` -/
+def underscoresOK (s : Str) : Bool :=
+  s.head? != some '_' && s.getLast? != some '_' && !contains ['_', '_'] s
+
+def dropUnderscores (s : Str) : Str := s.filter (fun c => c != '_')
+
+/-- decimal literals `12`, `12.`, `12.5`, `.5`, `1_000.2_5` → (mantissa, number of decimals).
+    (Python's `float()` also accepts exponents, `inf`, `nan`, signs: outside the grammar.) -/
 def parseLit (s : Str) : Option (Nat × Nat) :=
   match s with
   | [] => none
   | c :: _ =>
     if !(c.isDigit || c == '.') then none
     else match splitOn s ['.'] with
-    | [a] => if a.isEmpty then none else (digitsVal a 0).map (fun m => (m, 0))
-    | [a, b] => if a.isEmpty && b.isEmpty then none else (digitsVal (a ++ b) 0).map (fun m => (m, b.length))
+    | [a] => if a.isEmpty || !underscoresOK a then none else (digitsVal (dropUnderscores a) 0).map (fun m => (m, 0))
+    | [a, b] =>
+      if (a.isEmpty && b.isEmpty) || !underscoresOK a || !underscoresOK b then none
+      else (digitsVal (dropUnderscores a ++ dropUnderscores b) 0).map (fun m => (m, (dropUnderscores b).length))
     | _ => none
 
 /-! ## The track: coordinates, timestamps (as epoch seconds) and the feature table -/
@@ -549,6 +559,14 @@ def assign (tr : Tr α) (op1 op2 : Item α) : Res α Unit :=
             | .error e => (.error e, tr)
             | .ok tr1 => (.ok (), tr1)
       | _ => (.error "err:unsupported", tr)
+    else if l = ['x'] || l = ['y'] || l = ['z'] then
+      -- `for i in range(self.size()): self.setObsAnalyticalFeature(op1, i, float(op2))` (fix 144a468):
+      -- `float(op2)` is evaluated inside the loop, so nothing is evaluated (or raised) on an empty track
+      if tr.n = 0 then (.ok (), tr)
+      else
+        match toFloat op2 with
+        | .error e => (.error e, tr)
+        | .ok v => (.ok (), setCoord tr l (konst tr v))
     else
       match toFloat op2 with
       | .error e => (.error e, tr)
